@@ -23,8 +23,11 @@ DISCARD = ("ok", "err", "unwrap", "expect", "unwrap_or", "unwrap_or_default", "u
            "into_ok", "into_err", "flatten", "inspect", "inspect_err", "and", "transpose")
 
 
+_ERR_PARAMS = set()   # while a crate-local error-generic helper is analysed: its type parameter(s) standing for the target error
+
+
 def is_err_alias(t):
-    return isinstance(t, dict) and t.get("trait") == DT and t.get("name") == "Error"
+    return isinstance(t, dict) and ((t.get("trait") == DT and t.get("name") == "Error") or (_ERR_PARAMS and t.get("param") in _ERR_PARAMS))
 
 
 def e_kind(t):
@@ -452,9 +455,34 @@ def _drop_reachable_unconsumed(fa, t, consume_blocks, r):
     return False
 
 
+def _helper_short_circuits(prog, g, may_draw, rep, done):
+    global _ERR_PARAMS
+    if g.id in done:
+        return done[g.id]
+    rt = g.body["locals"][0]["ty"]
+    e = rt["args"][1] if isinstance(rt, dict) and rt.get("adt") == RESULT and len(rt.get("args", [])) == 2 else None
+    if not (isinstance(e, dict) and "param" in e):
+        done[g.id] = False
+        return False
+    _ERR_PARAMS = {e["param"]}
+    try:
+        fa = FnAnalysis(prog, g, may_draw)
+        prods = [(i, b["t"]) for i, b in enumerate(g.body["blocks"]) if i in fa.live and b["t"] and fa.is_producer(b["t"])]
+        before = len([o for o in rep.obligations if o["status"] != "discharged"])
+        for bi, t in prods:
+            analyse_producer(fa, bi, t, rep, "R04")
+        after = len([o for o in rep.obligations if o["status"] != "discharged"])
+        ok = bool(prods) and after == before
+    finally:
+        _ERR_PARAMS = set()
+    done[g.id] = ok
+    return ok
+
+
 def run(ctx, rep):
     n_prod = n_q = 0
     fns_with = set()
+    helpers_done = {}
     for config in ctx.configs:
         prog = ctx.program(config)
         rep.configs.append(config)
@@ -475,6 +503,12 @@ def run(ctx, rep):
             elif f.kind == "closure":
                 # closures returning E-types must be handed to short-circuiting consumers
                 ok = _closure_short_circuits(prog, f)
+                if isinstance(ok, tuple):
+                    # handed to a crate-local helper that is generic in the error type (`fn each<E>(it, f: impl FnMut(..) ->
+                    # Result<(), E>) -> Result<(), E>`): the helper is a short-circuiting consumer iff every call it makes to
+                    # a Result<_, E>-returning callable is consumed like a target error (R04.1-R04.3 inside the helper)
+                    g = ok[1]
+                    ok = _helper_short_circuits(prog, g, may_draw, rep, helpers_done)
                 rep.check(ok, "R04.4", "closure:" + f.key(), "closure returning a target error is not passed to a short-circuiting consumer (try_for_each / try_fold / Result::and_then)", at=f.span, fn=f.path)
             for bi, t in prods:
                 if config == ctx.configs[0]:
@@ -519,6 +553,10 @@ def _closure_short_circuits(prog, clo):
                 if ol and ol[0] in locs:
                     if t["f"].get("name") in ("try_for_each", "try_fold", "try_rfold"):
                         return True
+                    r_ = t["f"].get("resolved") or t["f"]
+                    gs = [g for g in prog.by_path.get(r_.get("path", ""), []) if g.body and g.kind in ("fn", "assoc_fn")]
+                    if len(gs) == 1 and gs[0].crate in ("embedded_graphics", "embedded_graphics_core"):
+                        return ("helper", gs[0])
                     # Result::and_then(r, closure): the closure runs only when r is Ok and its result is the call's result
                     return t["f"].get("path", "") == "core::result::Result::<T, E>::and_then" and t["args"].index(a) == 1
     return False
